@@ -32,8 +32,7 @@ RECURSIVE SumSeq(_, _)
 SumSeq(q, i) == IF i > Len(q) THEN 0 ELSE q[i].v + SumSeq(q, i + 1)
 
 InitS == [coins |-> {}, txs |-> {}, keys |-> {}]
-\* accounts: a key belongs to one account (keys: [id, change, acct]); a request draws on the coins of its account only, and
-\* the per-account quantities a wallet reports are derived the same way as the totals
+\* accounts: a key belongs to one account (keys: [id, change, acct]); \* the per-account quantities a wallet reports are derived the same way as the totals
 AcctOf(s, kid) == LET K == {k \in s.keys : k.id = kid} IN IF K = {} THEN 0 ELSE (CHOOSE k \in K : TRUE).acct
 UnspentA(s, a) == {c \in Unspent(s) : AcctOf(s, c.key) = a}
 BalanceA(s, a) == SumV(UnspentA(s, a))
@@ -84,7 +83,9 @@ Refresh(s, confs) ==
 \* q = [recips: Seq([id, v]), fee (explicit, or -1), minconf, inkeys (set of key ids, {} = any), sweep: BOOLEAN,
 \*      feemin, feemax, nexplicit, explicit (set of <<t, n>>), above, acct]
 \* x = [ins: Seq([t, n, v]), outs: Seq([v, key (own key id or 0), rid (index into recips or 0)]), fee, vsize]
-Spendable(s, q) == {c \in Unspent(s) : c.conf >= q.minconf /\ (q.inkeys = {} \/ c.key \in q.inkeys) /\ AcctOf(s, c.key) = q.acct}
+\* (the property asks for unspent outputs "of this wallet": an input drawn from another account of the same wallet - as
+\* bumpfee does when it adds an input - is allowed; q.acct only says which account the request named)
+Spendable(s, q) == {c \in Unspent(s) : c.conf >= q.minconf /\ (q.inkeys = {} \/ c.key \in q.inkeys)}
 ReqTotal(q) == SumSeq(q.recips, 1)
 InsDistinct(x) == \A i, j \in 1..Len(x.ins) : i # j => <<x.ins[i].t, x.ins[i].n>> # <<x.ins[j].t, x.ins[j].n>>
 InputOK(s, q, in) == \E c \in Spendable(s, q) : c.t = in.t /\ c.n = in.n /\ c.v = in.v
